@@ -52,14 +52,22 @@ macro "stamp_thm" h:ident d:ident : tactic => `(tactic|
 
 /-! ### the tables -/
 
-/-- **all_accumulate**: no parsed `_stamp` method assigns a matrix entry with `=`; every update is `+=` / `-=`
-    (an assignment silently discards what other components stamped before: finding F26). -/
+/-- **all_accumulate**: `Gen.Stamps.updates` lists EVERY matrix update of every parsed `_stamp` method with its operator as
+    read from the source; the Boolean is COMPUTED here, by the kernel, from that list: none of them is a plain assignment `=`
+    (an assignment silently discards what other components stamped before: finding F26).  (What is trusted is that the
+    reader lists the updates faithfully -- the same trust as for the generated stamp definitions.) -/
 theorem all_accumulate : Gen.Stamps.allAccumulate = true := by decide
 
-/-- **guards_ok**: every entry written to a node row or column is guarded by exactly the `>= 0` tests of the
-    node indices it uses (ground has index −1, which Python would read as the LAST row/column), and every
-    block is indexed with indices of the right sort. -/
+/-- the same, entry by entry -/
+theorem all_accumulate_each : ∀ u ∈ Gen.Stamps.updates, u.op ≠ Gen.Stamps.Op.assign := by decide
+
+/-- **guards_ok**: computed from the same list: every update is enclosed by exactly the `>= 0` tests of the node-index
+    variables it uses (ground has index −1, which Python would read as the LAST row/column; an extra test would drop an
+    entry), and every block is indexed with indices of the right sort (G[node,node], B[node,br], C[br,node], D[br,br],
+    Is[node], Es[br]).  The generated stamp definitions themselves carry no guards: the model handles ground by `ground`. -/
 theorem guards_ok : Gen.Stamps.guardsOk = true := by decide
+
+theorem guards_ok_each : ∀ u ∈ Gen.Stamps.updates, u.used = u.guards ∧ u.idx = u.blk.sorts := by decide
 
 /-- **delegations_sound**: `TPB`, `TPG`, `TPH` stamp through `TPA._stamp` and `TPZ` through `TPY._stamp`
     (with the converted parameters, see Props/C01TwoPort.lean) whenever the reader recognised the delegation. -/
@@ -144,7 +152,10 @@ theorem stamp_I (h : Gen.Stamps.parsed_I = true) (sk : SrcKind) (s : K) (n1 n2 :
   stamp_thm h Gen.Stamps.I
 
 /-- `K._stamp`: the two sides of a coupling, with `sym.sqrt(ZL1·ZL2/s²)` = √(L1·L2) =: r and, in a phasor
-    kind, `sym.sqrt(ZL1·ZL2)` = s·r (s = jω); M = k·r.  (`K._stamp` refuses the time kind.) -/
+    kind, `sym.sqrt(ZL1·ZL2)` = s·r (s = jω); M = k·r.  (`K._stamp` refuses the time kind.)
+    ONE BRANCH of the square root only: `sqrt((jω)²·L1·L2) = jω·r` is the principal value for ω > 0; for ω < 0 SymPy's
+    principal root is −jω·r and the code would stamp the coupling with the opposite sign -- that case is outside this
+    theorem (the generators only draw ω > 0; the value is tied by the correspondence). -/
 theorem stamp_K (h : Gen.Stamps.parsed_K = true) (sk : SrcKind) (hsk : sk ≠ .time) (s : K) (ic1 ic2 : Bool)
     (m1 m2 : Nat) (k r i01 i02 : K) :
     SameRes (Gen.Stamps.K sk ic1 ic2 m1 m2 k r (s * r) s i01 i02)
